@@ -27,7 +27,7 @@ ASSUMPTIONS = ['when the optimiser does not converge (possible at 0% error) coun
 REQUIRED = {t: ['readsets_counting_judged', 'readsets_cutoff_judged', 'rows_compared', 'labels_checked', 'gradient_points',
                 'likelihood_points', 'cutoff_points', 'cli_runs', 'truncation_cases', 'truncation_exactly_50',
                 'readsets_with_kmers_seen_over_1000_times', 'likelihood_points_on_later_histograms_of_a_process', 'damaged_input_refused',
-                'readsets_with_reads_of_exactly_k', 'readsets_with_unequal_files'] for t in ('quick', 'thorough')}
+                'readsets_with_reads_of_exactly_k', 'readsets_with_unequal_files', 'readsets_with_an_amplicon'] for t in ('quick', 'thorough')}
 
 SUITE_COUNTS = [44633459, 950672, 104410, 44137, 24170, 21232, 21699, 24145, 30696, 39210, 49878, 63683, 77690, 95147,
                 112416, 130307, 146531, 160932, 175130, 185113, 193149, 197468, 199189, 198235, 192150, 185565, 176362,
@@ -177,7 +177,17 @@ def sim_reads(rng, k=None):
                 s = M.rc_n(s)
             reads[r % 2].insert(rng.randrange(len(reads[r % 2]) + 1), s)
         hi = '%s x %d reads' % (unit, nhi)
-    return reads, {'genome_length': glen, 'coverage': cov, 'error_rate': err, 'read_length': RL, 'high_copy': hi, 'shape': shape}
+    amp = None
+    if rng.random() < 0.25:
+        # an amplicon / multi-copy element: one read-length sequence present hundreds or more than a thousand times, so that
+        # dozens of distinct split k-mers share a multiplicity far above the coverage (rows far out in the table, or beyond 1000)
+        el = G.rseq(rng, RL)
+        copies = rng.choice([rng.randint(300, 950), rng.randint(1050, 1600)])
+        for r in range(copies):
+            s_ = el if rng.random() < 0.5 else M.rc(el)
+            reads[r % 2].append(s_)
+        amp = '%d copies of a %d-base element' % (copies, RL)
+    return reads, {'genome_length': glen, 'coverage': cov, 'error_rate': err, 'read_length': RL, 'high_copy': hi, 'shape': shape, 'amplicon': amp}
 
 
 def parse_harness_cov(out):
@@ -234,6 +244,8 @@ def run_reads(desc, ctx, res):
     k, rcmode = desc['k'], desc['rc']
     rng = random.Random(desc['seed'])
     reads, params = sim_reads(rng, k)
+    if params.get('amplicon'):
+        res.count('readsets_with_an_amplicon')
     if params.get('shape'):
         res.count('readsets_trimmed_or_unequal')
         if any(len(r_) == k for r_ in reads[0] + reads[1]):
